@@ -7,6 +7,8 @@ PROBES = [
     ('deque', 'g2;push1,push2;push3,pop,push4;steal,steal', 2), ('deque', 'g2;push40,steal,push41,steal,push1,push2;push3,pop;steal;steal', 3),
     ('queue_ms', 'ms/hp3/I;push1;push2,pop;pop,push3', 4), ('queue_ms', 'ms/ebr0/I;;push1,push2;pop,pop', 4), ('queue_ms', 'ms/stamp/I;push1;push2,pop;pop', 5),
     ('queue_ram', 'ram21/hp3/I;push1;push2,push3;pop,pop', 4), ('queue_ram', 'ram10/qsbr/I;;push1,push2;pop,pop', 4),
+    # a popper next to a pusher that is stopped between linking a new node and swinging _tail (helping, not waiting)
+    ('queue_ram', 'ram10/ebr0/I;push1;push2;pop,pop', 3), ('queue_nik', 'nik10/ebr0/I;push1;push2;pop,pop', 5), ('queue_ms', 'ms/ebr0/I;push1;push2;pop,pop', 3),
     ('queue_nik', 'nik21/ebr0/I;push1;push2,pop;pop,push3', 6), ('queue_nik', 'nik10/hp3/I;;push1,push2;pop,pop', 6),
     ('queue_bounded', 'nkb2/-/I;push1;push2,pop;pop,push3', 4), ('queue_bounded', 'vyu2/-/I;push1;wpush2,wpop;wpop,wpush3', 3),
     ('queue_kirsch', 'kf2/hp3/P;push1;push2,pop;pop,push3', 5), ('queue_kirsch', 'bkf2s2/-/P;push1;push2,pop;pop,push3', 4),
